@@ -534,16 +534,16 @@ func genC15(g *Gen) {
 	// and any fixed-size scratch block), after a bulk fill logged as range macro-steps; then the bitmap grows
 	// again, by one word or far beyond the empty end, and what lies between is probed.
 	bigs := []int{1025, 1030, 1100, 2047, 2048, 2050, 3000, 1024, 1023}
-	for rep := 0; rep < g.N(2, 9); rep++ {
+	for rep := 0; rep < g.N(3, 9); rep++ {
 		o := int64(64 * r.Intn(3))
 		nwords := bigs[(rep+int(g.Seed)*2)%len(bigs)]
-		if rep < 2 {
-			nwords = bigs[(rep+int(g.Seed)*2)%7] // the first two histories always drop more than 1024 words
+		if rep < 3 {
+			nwords = bigs[(rep+int(g.Seed)*2)%7] // the first three histories always drop more than 1024 words
 		}
 		t := newTBGen(g, o)
 		hole0 := int64(r.Intn(64))
 		var farLive []int64
-		if rep%3 != 1 { // live bits far ahead (1100..3100 words behind the run): many words remain when the run is dropped
+		if rep%3 == 1 { // live bits far ahead (1100..3100 words behind the run): many words remain when the run is dropped
 			for n := 1 + r.Intn(2); n > 0; n-- {
 				idx := o + 64*int64(nwords+1100+r.Intn(2000)) + int64(r.Intn(64))
 				t.Set(idx)
